@@ -834,9 +834,14 @@ func (m *monitor) step(s stepRec) string {
 			// the delivery already failed: this chunk reports its error
 			m.classes["chunk_reports_early_failure"] = true
 			if m.cfg.LMTP && cmd.Last {
-				m.unspecified++ // reply count for a failed LAST chunk in LMTP: judged by C13
-				if len(s.Replies) < 1 {
-					return fmt.Sprintf("%s: no reply", cmd)
+				// the final response in LMTP is one reply per recipient (C13)
+				if len(s.Replies) != nf {
+					return fmt.Sprintf("%s: failed LAST chunk in LMTP: expected %d final replies, got %v", cmd, nf, replyCodes(s.Replies))
+				}
+				for _, r := range s.Replies {
+					if r.Code != errCode {
+						return fmt.Sprintf("%s: final reply %s, want %d", cmd, r, errCode)
+					}
 				}
 			} else if e := one(errCode); e != "" {
 				return e
